@@ -6,6 +6,7 @@ CONSTANTS
   Fixed = TRUE
   UseSched = FALSE
   CondErr = FALSE
+  Holds = {"late","before","cmd1","gate2","cmd2","after","done"}
 SPECIFICATION GSpec
 INVARIANTS NoPanic NoStartAfterCancel InterruptedReportsError Emit
 PROPERTIES Finishes
